@@ -5,6 +5,7 @@ import (
 	"fmt"
 	"os"
 	"path/filepath"
+	"regexp"
 	"runtime"
 	"sort"
 	"strconv"
@@ -17,23 +18,23 @@ import (
 
 // HarnessSpec registers one harness function for a property.
 type HarnessSpec struct {
-	Prop     string
-	Pkg      string         // import path suffix below the module root ("" = root package)
-	Func     string         // harness function name (ZZ_...)
-	Tag      string         // distinguishes several registrations of one function (e.g. "shape=2")
-	Tiers    string         // "quick", "thorough" or "" (both)
-	Unwind   int            // loop unwinding bound (unwinding assertion)
-	MaxPaths int            // path budget; hitting it makes the run incomplete
-	MaxSteps int64          // SSA instruction budget per path
-	POR      bool           // sleep-set partial-order reduction
-	Replay   string         // "native": run the same harness natively with the model; "" none
-	ReplayPkg  string       // native replay runs this package's ...
-	ReplayFunc string       // ... function instead (reads the same model variables)
-	Params   map[string]int // harness parameters (zz.Param)
-	TParams  map[string]int // overrides for the thorough tier
-	Twin     bool           // run the vacuity twin (zz.Twin() makes final assertions false)
-	MustReach []string      // zz.Reach labels that some path must reach (existential obligations); unreached = violation "must-reach/<label>"
-	Note     string
+	Prop       string
+	Pkg        string         // import path suffix below the module root ("" = root package)
+	Func       string         // harness function name (ZZ_...)
+	Tag        string         // distinguishes several registrations of one function (e.g. "shape=2")
+	Tiers      string         // "quick", "thorough" or "" (both)
+	Unwind     int            // loop unwinding bound (unwinding assertion)
+	MaxPaths   int            // path budget; hitting it makes the run incomplete
+	MaxSteps   int64          // SSA instruction budget per path
+	POR        bool           // sleep-set partial-order reduction
+	Replay     string         // "native": run the same harness natively with the model; "" none
+	ReplayPkg  string         // native replay runs this package's ...
+	ReplayFunc string         // ... function instead (reads the same model variables)
+	Params     map[string]int // harness parameters (zz.Param)
+	TParams    map[string]int // overrides for the thorough tier
+	Twin       bool           // run the vacuity twin (zz.Twin() makes final assertions false)
+	MustReach  []string       // zz.Reach labels that some path must reach (existential obligations); unreached = violation "must-reach/<label>"
+	Note       string
 }
 
 const modulePath = "github.com/go-task/task/v3"
@@ -131,7 +132,7 @@ func runHarness(ld *Loaded, spec HarnessSpec, tier string, workers int, twin boo
 	}
 	unwind := spec.Unwind
 	if unwind == 0 {
-		unwind = 24
+		unwind = 64
 	}
 	if v, ok := params["__unwind"]; ok {
 		unwind = v
@@ -307,7 +308,7 @@ func runPath(i *Interp, h *ssa.Function) (end string) {
 		case pathEnd:
 			end = r.why
 		case targetPanic:
-			msg := panicMessage(r.v)
+			msg := normalizePanic(panicMessage(r.v))
 			res, model := i.solver.CheckAll(i.pc)
 			if res != "unsat" {
 				if k := strings.Index(r.where, " <- "); k > 0 {
@@ -326,6 +327,14 @@ func runPath(i *Interp, h *ssa.Function) (end string) {
 	}()
 	i.callSSA(nil, h, nil, nil)
 	return "ok"
+}
+
+var panicNumbers = regexp.MustCompile(`\[[-0-9:]+\]|\b[0-9]+\b|\(field [^)]*\)`)
+
+// normalizePanic removes the concrete numbers of a runtime panic message so that
+// one defect gives one signature.
+func normalizePanic(msg string) string {
+	return strings.TrimSpace(panicNumbers.ReplaceAllString(msg, "N"))
 }
 
 func panicMessage(v value) string {
@@ -619,7 +628,7 @@ func writeEvidence(o checkOpts, ld *Loaded, results []*HarnessResult, violations
 		}
 		unw := r.Spec.Unwind
 		if unw == 0 {
-			unw = 24
+			unw = 64
 		}
 		bounds[r.Spec.name()] = map[string]any{"unwind": unw, "params": p, "por_sleep_sets": r.Spec.POR, "note": r.Spec.Note}
 		harnesses = append(harnesses, map[string]any{"harness": r.Spec.name(), "paths": r.Paths, "ends": r.Ends, "ssa_instructions": r.Instrs,
@@ -653,24 +662,24 @@ func writeEvidence(o checkOpts, ld *Loaded, results []*HarnessResult, violations
 		}
 	}
 	cov := map[string]any{
-		"evaluations":         paths,
-		"distinct_nontrivial": nontriv,
-		"rule":                "every path of the bounded symbolic execution tree of each harness is explored exactly once (DFS over decision vectors: solver-decided branches, size/choice forks, scheduler picks); a path is non-trivial when it contains at least one decision with two or more solver-feasible alternatives; paths are distinct by decision vector",
-		"samples":             samples,
-		"explanation":         "bounded symbolic execution of the real go-task functions (go/ssa of /repo's working tree, regenerated this run) with an SMT solver (z3) deciding every branch feasibility and every assertion over all values of the symbolic inputs within the stated bounds; counterexamples are replayed against the real build before being reported",
-		"exhaustive":          len(broken) == 0,
-		"functions_encoded":   repoFuncs,
-		"functions_encoded_n": len(fenc),
-		"source_files_sha256": fileSet,
-		"stubs":               stubs,
-		"bounds":              bounds,
-		"forks_by_kind":       forks,
-		"assertion_sites":     asserts,
-		"queries":             map[string]int{"total": queries, "sat": sat, "unsat": unsat, "unknown": unknown},
-		"solver":              solverVersion(),
-		"solver_time_s":       solverTime.Seconds(),
-		"ssa_instructions":    instrs,
-		"harnesses":           harnesses,
+		"evaluations":                 paths,
+		"distinct_nontrivial":         nontriv,
+		"rule":                        "every path of the bounded symbolic execution tree of each harness is explored exactly once (DFS over decision vectors: solver-decided branches, size/choice forks, scheduler picks); a path is non-trivial when it contains at least one decision with two or more solver-feasible alternatives; paths are distinct by decision vector",
+		"samples":                     samples,
+		"explanation":                 "bounded symbolic execution of the real go-task functions (go/ssa of /repo's working tree, regenerated this run) with an SMT solver (z3) deciding every branch feasibility and every assertion over all values of the symbolic inputs within the stated bounds; counterexamples are replayed against the real build before being reported",
+		"exhaustive":                  len(broken) == 0,
+		"functions_encoded":           repoFuncs,
+		"functions_encoded_n":         len(fenc),
+		"source_files_sha256":         fileSet,
+		"stubs":                       stubs,
+		"bounds":                      bounds,
+		"forks_by_kind":               forks,
+		"assertion_sites":             asserts,
+		"queries":                     map[string]int{"total": queries, "sat": sat, "unsat": unsat, "unknown": unknown},
+		"solver":                      solverVersion(),
+		"solver_time_s":               solverTime.Seconds(),
+		"ssa_instructions":            instrs,
+		"harnesses":                   harnesses,
 		"unconfirmed_counterexamples": unconfirmed,
 		"load_and_ssa_build_s":        ld.loadTime.Seconds(),
 		"broken":                      broken,
